@@ -101,6 +101,7 @@ def register(reg):
     _register_read(reg)
     _register_read2(reg)
     _register_store2(reg)
+    _register_write(reg)
 
 
 def _register_nodes(reg):
@@ -665,3 +666,121 @@ def _register_store2(reg):
     reg.add(g, Contract(H + "_set_raw_node", ["self", "raw_node"], setraw_cases, setup=setraw_setup,
                         props=("C02", "C04", "C06")))
     reg.add(g, Contract(H + "_prune_node", ["self", "node"], prune_node_cases, setup=prune_node_setup, props=("C06",)))
+
+
+# ---------------------------------------------------------------------------------------------------
+# write path: _set  (the helpers _set_kv_node / _set_branch_node are executed as part of this unit)
+
+def set_setup(E):
+    t = write_trie(E, pruning=False)          # reference counting is the subject of C06, not of this unit
+    E.ghost["hex_value_slots"] = True
+    D = z3.Const("node.D", HNode)
+    E.assume(mk_bool(HM.hwfp(D)))
+    HM.unfold_wf(E, D)
+    node = HM.materialize(E, D)
+    key = HM.nibs(E, "trie_key")
+    value = E.fresh_seq("value", "bytes")
+    E.assume(mk_bool(z3.Length(value.t) > 0))
+    q0 = HM.nibs(E, "q0")
+    E.ghost["q0"] = q0.t
+    E.ghost["D_old"] = D
+    return {"self": t, "node": node, "trie_key": key, "value": value}
+
+
+def set_requires(E, ctx):
+    from contracts.seqspec import allnib_of
+    from contracts.nibbles_c import B2N
+    D = HM.alpha(ctx.node)
+    HM.unfold_wf(E, D)
+    K = ops.seq_term_as(ctx.trie_key, "int")
+    V = HM.bytes_of(ctx.value)
+    side = []
+    ok = allnib_of(K, side, B2N)
+    for f in side:
+        E.assume(mk_bool(f))
+    return [("node-well-formed", mk_bool(HM.hwfp(D))), ("key-is-nibbles", mk_bool(ok)),
+            ("value-non-empty", mk_bool(z3.Length(V) > 0))]
+
+
+def hview_after_set(Dold, K, V, q):
+    return z3.If(q == K, V, HM.hlk(Dold, q))
+
+
+def set_cases(E, ctx):
+    s = ctx.self
+    db = s.fields["db"]
+    K = ops.seq_term_as(ctx.trie_key, "int")
+    V = HM.bytes_of(ctx.value)
+    unit_mode = hasattr(ctx, "outcome")
+    Dold = E.ghost["D_old"] if unit_mode else HM.alpha(ctx.node)
+    x = z3.Const("x!grow", SeqI)
+
+    def grows():
+        return z3.ForAll([x], z3.Implies(z3.Select(ctx.old_has(db), x),
+                                         z3.And(z3.Select(db.has, x), z3.Select(db.val, x) == z3.Select(ctx.old_val(db), x))),
+                         patterns=[z3.Select(db.has, x), z3.Select(db.val, x)])
+
+    def ens(res):
+        from contracts import seqlemmas as SL
+        Dn = HM.alpha(res)
+        q = E.ghost["q0"]
+        HM.unfold_hlk(E, Dold, q, depth=1)
+        HM.unfold_hlk(E, Dn, q, depth=3)
+        _key_pair_facts_hex(E, K, q, Dold)
+        HM.unfold_wf(E, Dn)
+        return [("view", mk_bool(HM.hlk(Dn, q) == hview_after_set(Dold, K, V, q))),
+                ("never-blank", mk_bool(z3.Not(HNode.is_HBlank(Dn))))]
+
+    def make():
+        Dn = z3.Const(E.fresh_name("_set.D"), HNode)
+        E.assume(mk_bool(z3.And(HM.hwfp(Dn), z3.Not(HNode.is_HBlank(Dn)))))
+        HM.unfold_wf(E, Dn)
+        E.ghost.setdefault("hview_rules2", []).append(
+            (Dn, lambda Q: HM.hlk(Dn, Q) == hview_after_set(Dold, K, V, Q), Dold))
+        if isinstance(ctx.node, ListObj):
+            ctx.node.items = None            # the argument list may have been modified in place: it must not be read again
+            ctx.node.seq = None
+        return HM.materialize(E, Dn)
+
+    def post():
+        return [("store-only-grows", mk_bool(grows()))]
+    # the argument list may be modified in place; in callee mode it is poisoned instead of havoced (see make)
+    mods = [db] + ([ctx.node] if (unit_mode and isinstance(ctx.node, ListObj)) else [])
+    return [Case("updated", ensures=ens if unit_mode else None, make=None if unit_mode else make, post=post, modifies=mods),
+            Case("missing-node", raises=KeyError, post=post, modifies=mods)]
+
+
+def _key_pair_facts_hex(E, K, q, D):
+    """lemma instances relating the update key K and the probe key q at the node D (a leaf / extension path or a
+    branch step)"""
+    from contracts import seqlemmas as SL
+    SL.use(E, "eq_cons", K, q)
+    SL.use(E, "prefix_cons", K, q)
+    for (a, b) in ((K, q), (q, K)):
+        SL.use(E, "prefix_head_differs", a, b)
+    D = z3.simplify(D)
+    paths = []
+    if HM.is_constructor(D) and D.decl().name() in ("HLeaf", "HExt"):
+        paths.append(D.arg(0))
+    else:
+        paths += [HNode.lpath(D), HNode.epath(D)]
+    for P in paths:
+        for (a, b) in ((K, q), (q, K)):
+            SL.use(E, "prefix_strip", P, a, b)
+            SL.use(E, "prefix_excl", P, a, b)
+            SL.use(E, "prefix_trans", P, a, b)
+        SL.use(E, "eq_strip", P, K, q)
+        for xk in (K, q):
+            SL.use(E, "prefix_is_slice", P, xk)
+            SL.use(E, "prefix_antisym", P, xk)
+    for (ta, tb, rterm) in E.ghost.get("gcpl", []):
+        for P in paths:
+            SL.split_point_facts(E, P, K, q, rterm, Kp=None)
+        SL.use(E, "lcp_prefix", ta, tb, rterm)
+
+
+def _register_write(reg):
+    g = "hexary_write"
+    H = HEX + ":HexaryTrie."
+    reg.add(g, Contract(H + "_set", ["self", "node", "trie_key", "value"], set_cases, setup=set_setup,
+                        requires=set_requires, props=("C01",)))
